@@ -516,6 +516,13 @@ def extract_biogeme():
     stores = [U(n) for s in fd.body for n in ast.walk(s) if isinstance(n, ast.Name) and isinstance(n.ctx, ast.Store)]
     need(sorted(set(stores)) == sorted({'warning_msg', 'the_function', 'starting_values', 'algorithm_name', 'the_algorithm',
                                         'err', 'variable_names', 'results'}), f'optimize: unexpected local variables {sorted(set(stores))}')
+    # optimize() is also called by every bootstrap re-estimation: it must not record anything on the object (status of the
+    # estimation, messages, ...) besides what _set_algorithm_parameters does
+    attr_stores = sorted({U(n) for n in ast.walk(fd) if isinstance(n, (ast.Attribute, ast.Subscript)) and isinstance(n.ctx, (ast.Store, ast.Del))})
+    need(all(all(32 <= ord(c) < 127 for c in t) for t in attr_stores), 'optimize: non-ASCII assignment target')
+    out['optimize_stores'] = (f'(* from src/biogeme/biogeme.py:{fd.lineno} BIOGEME.optimize: the attributes / items it assigns (optimize is re-run by every\n'
+                              '   bootstrap re-estimation: whatever it records on the object is overwritten by the last of them) *)\n'
+                              'Definition optimize_attribute_stores : list string :=\n  ' + coq_list([S(t) for t in attr_stores]) + '.\n')
     sv = [s for s in ast.walk(fd) if isinstance(s, ast.Assign) and U(s.targets[0]) == 'starting_values']
     need(len(sv) == 1 and U(sv[0].value) == 'np.array(self.id_manager.free_betas_values)', 'optimize: starting_values reassigned')
     # ---- estimate: the main path, in order
@@ -542,8 +549,28 @@ def extract_biogeme():
             need(U(s.target) == 'f' and [U(x) for x in s.body] == ['f.change_init_values(estimated_betas)'] and not s.orelse,
                  'estimate: write-back loop changed')
             skeleton.append('for f in self.formulas.values(): f.change_init_values(estimated_betas)')
-        elif isinstance(s, ast.If) and U(s.test) in ('recycle', 'run_bootstrap'):
-            continue      # not on the modelled path (recycle=False, run_bootstrap=False)
+        elif isinstance(s, ast.If) and U(s.test) == 'run_bootstrap':
+            # the bootstrap block: re-estimations started at xstar, stored row by row; it leaves xstar, f_g_h_b, the
+            # convergence status and the messages of the estimation alone
+            need(not s.orelse, 'estimate: bootstrap block has an else branch')
+            boot = []
+            for n in ast.walk(s):
+                if isinstance(n, (ast.Name, ast.Attribute, ast.Subscript)) and isinstance(n.ctx, (ast.Store, ast.Del)):
+                    t = U(n)
+                    need(t in ('start_time', 'self.bootstrap_results', 'current_logger_level', 'self._saving_suspended', 'b', 'sample',
+                               'x_br', '_', 'self.bootstrap_results[b]', 'self.bootstrap_time', '(x_br, _, _)'),
+                         f'estimate: the bootstrap block assigns {t}')
+            loops = [n for n in ast.walk(s) if isinstance(n, ast.For)]
+            need(len(loops) == 1 and U(loops[0].target) == 'b' and U(loops[0].iter) in ('tqdm(range(self.bootstrap_samples))', 'range(self.bootstrap_samples)'),
+                 'estimate: bootstrap loop changed')
+            lb = [' '.join(U(x).split()) for x in loops[0].body if not isinstance(x, ast.If)]
+            need(lb == ['x_br, _, _ = self.optimize(xstar)', 'self.bootstrap_results[b] = x_br'], f'estimate: body of the bootstrap loop changed: {lb}')
+            boot = ['for b in range(self.bootstrap_samples):'] + lb
+            out['bootstrap_skeleton'] = (f'(* from src/biogeme/biogeme.py:{s.lineno} BIOGEME.estimate: the bootstrap block *)\n'
+                                         'Definition bootstrap_skeleton : list string :=\n  ' + coq_list([S(x) for x in boot], ';\n   ') + '.\n')
+            skeleton.append('if run_bootstrap: <bootstrap block>')
+        elif isinstance(s, ast.If) and U(s.test) == 'recycle':
+            continue      # not on the modelled path (recycle=False)
         else:
             # everything else must leave xstar, f_g_h_b (except the documented Hessian fallback), output, r alone
             for n in ast.walk(s):
@@ -558,6 +585,30 @@ def extract_biogeme():
                     need(isinstance(s, ast.If) and 'kwargs' in U(s.test), f'estimate: unexpected return at line {n.lineno}')
     out['estimate_skeleton'] = (f'(* from src/biogeme/biogeme.py:{fd.lineno} BIOGEME.estimate: the statements of the main path, in order *)\n'
                                 'Definition estimate_skeleton : list string :=\n  ' + coq_list([S(x) for x in skeleton], ';\n   ') + '.\n')
+    need('bootstrap_skeleton' in out, 'estimate: bootstrap block not found')
+    # ---- calculate_likelihood_and_derivatives: the arrays handed to the engine are allocated at every call (a results
+    #      object keeps the arrays it was given: shared buffers would be overwritten by later evaluations)
+    fd = tr.find('BIOGEME.calculate_likelihood_and_derivatives')
+    eng = [n for n in ast.walk(fd) if isinstance(n, ast.Call) and U(n.func) == 'self.theC.calculateLikelihoodAndDerivatives']
+    need(len(eng) == 1 and len(eng[0].args) == 8 and not eng[0].keywords, 'calculate_likelihood_and_derivatives: engine call changed')
+    bufs = [U(a) for a in eng[0].args[3:6]]
+    need(all(isinstance(a, ast.Name) for a in eng[0].args[3:6]) and len(set(bufs)) == 3, 'calculate_likelihood_and_derivatives: buffers are not three local variables')
+    fresh = True
+    alloc = []
+    for bname in bufs:
+        asg = [n for n in ast.walk(fd) if isinstance(n, (ast.Assign, ast.AugAssign, ast.AnnAssign)) and n.lineno < eng[0].lineno and
+               any(isinstance(x, ast.Name) and x.id == bname and isinstance(x.ctx, ast.Store) for t in (n.targets if isinstance(n, ast.Assign) else [n.target]) for x in ast.walk(t))]
+        ok1 = (len(asg) == 1 and isinstance(asg[0], ast.Assign) and isinstance(asg[0].targets[0], ast.Name) and asg[0] in fd.body
+               and isinstance(asg[0].value, ast.Call) and U(asg[0].value.func) == 'np.empty')
+        fresh = fresh and ok1
+        alloc.append((bname, ' '.join(U(asg[-1].value).split()) if asg and getattr(asg[-1], 'value', None) is not None else '?'))
+    rets = [n for n in ast.walk(fd) if isinstance(n, ast.Call) and U(n.func) == 'BiogemeFunctionOutput']
+    need(len(rets) == 2, 'calculate_likelihood_and_derivatives: construction of the output changed')
+    out['buffers'] = (f'(* from src/biogeme/biogeme.py:{fd.lineno} BIOGEME.calculate_likelihood_and_derivatives: how the arrays handed to the engine\n'
+                      '   (gradient, Hessian, BHHH) come to exist; fresh = each is a local variable assigned once, from np.empty(...), in the body *)\n'
+                      'Definition derivative_buffers : list (string * string) :=\n  '
+                      + coq_list([f'({S(a)}, {S(b)})' for a, b in alloc]) + '.\n'
+                      f'Definition derivative_buffers_fresh : bool := {coq_bool(fresh)}.\n')
     # calculate_init_likelihood
     fd = tr.find('BIOGEME.calculate_init_likelihood')
     st = [' '.join(U(s).split()) for s in fd.body if not tr.ignorable(s)]
@@ -637,6 +688,7 @@ def gen_neglike_text():
            + coq_list([f'({S(w)}, {coq_list([f"({S(a)}, {S(b)})" for a, b in i["overrides"]])})'
                        for w, i in sorted(infos.items()) if not i['external']], ';\n   ') + '.\n',
            bio['algorithm_name'], bio['set_algorithm_parameters'], bio['function_parameters'], bio['estimate_skeleton'],
+           bio['bootstrap_skeleton'], bio['optimize_stores'], bio['buffers'],
            extract_raw_results(), extract_sections()]
     for t in out:
         if not all(ord(c) < 127 for c in t):
@@ -689,6 +741,40 @@ def algorithm_names():
 # ---- independent evaluation of the logit likelihood (numpy, float64) -- used to build problems with a finite maximum
 #      and as a second reference for the reported value / derivatives
 def ref_eval(problem, values, free_names):
+    if problem.get('kind') == 'expo':
+        return ref_eval_expo(problem, values, free_names)
+    return ref_eval_logit(problem, values, free_names)
+
+
+def ref_eval_expo(problem, values, free_names):
+    """sum_n y_n log(lin_n) - lin_n t_n with lin_n = sum_k value_k z_nk: concave; NaN where some lin_n < 0"""
+    import numpy as np
+    cols = {c: np.array([float.fromhex(v) for v in vals]) for c, vals in problem['cols'].items()}
+    t = cols['t']
+    n = len(t)
+    y = cols['y'] if 'y' in cols else np.ones(n)
+    K = len(free_names)
+    idx = {nm: k for k, nm in enumerate(free_names)}
+    lin = np.zeros(n)
+    Z = np.zeros((n, K))
+    for prm, col in problem['lin']:
+        z = np.ones(n) if col is None else cols[col]
+        lin += values[prm] * z
+        if prm in idx:
+            Z[:, idx[prm]] += z
+    with np.errstate(all='ignore'):
+        ll_n = y * np.log(lin) - lin * t
+        w = y / lin - t
+        g_n = Z * w[:, None]
+        H = -(Z * (y / lin ** 2)[:, None]).T @ Z
+        B = g_n.T @ g_n
+        zmax = float(np.abs(Z).max()) if Z.size else 1.0
+        scale = float(np.abs(y * np.log(lin)).sum() + np.abs(lin * t).sum()) + 1.0
+        scale_d = float(((np.abs(y / lin) + t) ** 2).sum() + np.abs(y / lin ** 2).sum() + n) * (1.0 + zmax) ** 2
+    return {'f': float(ll_n.sum()), 'g': g_n.sum(axis=0), 'H': H, 'B': B, 'scale_f': scale, 'scale_d': scale_d}
+
+
+def ref_eval_logit(problem, values, free_names):
     import numpy as np
     alts = sorted(problem['alts'], key=int)
     n = len(problem['choice'])
@@ -718,10 +804,10 @@ def ref_eval(problem, values, free_names):
             'scale_d': n * (1.0 + xmax) ** 2}
 
 
-def ref_mle(problem, fixed_values, free_names):
-    """Newton iteration from 0 with step halving; None when the maximum is not comfortably finite"""
+def ref_mle(problem, fixed_values, free_names, x_init=None):
+    """Newton iteration from 0 (or x_init) with step halving; None when the maximum is not comfortably finite"""
     import numpy as np
-    x = np.zeros(len(free_names))
+    x = np.zeros(len(free_names)) if x_init is None else np.array(x_init, dtype=float)
 
     def ev(x):
         vals = dict(fixed_values)
@@ -825,6 +911,134 @@ def gen_problem(rng):
         problem['ref_max'] = f2h(mle[1])
         return problem
     raise RuntimeError('C07: could not generate a problem with a finite maximum')
+
+
+def gen_expo_problem(rng):
+    """duration / count model  sum_n y_n log(lin_n) - lin_n t_n,  lin_n = lam + b1 z_n  (z_n >= 0): concave in (lam, b1), with a
+    NEGATIVE maximum, and UNDEFINED (log of a negative number: NaN) where some lin_n < 0 -- a region no bound guards unless the
+    run declares lower bounds.  Data: multiples of 1/4."""
+    for _attempt in range(200):
+        K = rng.choice([1, 1, 2])
+        n = rng.randint(30, 80)
+        lam = rng.choice([0.5, 0.75, 1.0, 1.5])
+        b = rng.choice([0.25, 0.5, 0.75]) if K == 2 else 0.0
+        z = [rng.randint(0, 8) / 4.0 for _ in range(n)]
+        t = [math.ceil(rng.expovariate(lam + b * zi) * 4 + 1e-9) / 4.0 for zi in z]
+        cols = {'t': t}
+        lin = [['lam', None]]
+        if K == 2:
+            cols['z'] = z
+            lin.append(['b1', 'z'])
+        if rng.random() < 0.3:
+            cols['y'] = [float(rng.choice([0, 1, 1, 2, 3])) for _ in range(n)]
+        problem = {'kind': 'expo', 'cols': {c: [f2h(v) for v in vals] for c, vals in cols.items()}, 'lin': lin, 'alts': {},
+                   'choice': None, 'free': [q[0] for q in lin], 'fixed': {}}
+        mle = ref_mle(problem, {}, problem['free'], x_init=[1.0] + [0.0] * (K - 1))
+        if mle is None or mle[1] > -5.0 or mle[0][0] < 0.2 or (K == 2 and abs(mle[0][1]) < 0.05):
+            continue
+        problem['ref_mle'] = [f2h(v) for v in mle[0]]
+        problem['ref_max'] = f2h(mle[1])
+        return problem
+    raise RuntimeError('C07: could not generate a duration problem')
+
+
+def gen_expo_runs(rng, problems, algorithms, light=False):
+    """no bound / only upper bounds (the undefined region is NOT guarded) / lower bounds guarding it; starts above the maximum
+    (a Newton step from lam > 2 lam* lands on a negative lam), below it and near it"""
+    runs = []
+    for pid, p in problems.items():
+        mle = [h2f(v) for v in p['ref_mle']]
+        for bk in ('none', 'upper-only', 'guarded'):
+            bounds = []
+            for k, m in enumerate(mle):
+                if bk == 'none':
+                    bounds.append((None, None))
+                elif bk == 'upper-only':
+                    bounds.append((None, q4(abs(m) * 12 + 4)))
+                else:
+                    bounds.append((0.0625 if k == 0 else 0.0, None if rng.random() < 0.5 else q4(abs(m) * 12 + 4)))
+            for i_s, sk in enumerate(rng.sample(['x3', 'x5', 'x8', 'low', 'near'], 3)):
+                f = {'x3': 3.0, 'x5': 5.0, 'x8': 8.0, 'low': 0.25, 'near': 1.0}[sk]
+                start = [max(0.125, q4(mle[0] * f))] + [max(0.0, q4(m)) if sk != 'low' else 0.0 for m in mle[1:]]
+                for a in algorithms:
+                    if light and i_s > 0 and a not in SUPPORTS_BOUNDS:
+                        continue      # quick tier: the routines without bounds run to their iteration limit in the undefined region (slow)
+                    runs.append(make_run(pid, p, bounds, start, a, rng.random() < 0.5, None, None,
+                                         {'bounds_kind': bk, 'start_kind': sk, 'family': 'expo'}))
+    return runs
+
+
+def unguarded(problem, run):
+    """the likelihood has an undefined region and nothing keeps this algorithm out of it"""
+    if problem.get('kind') != 'expo':
+        return False
+    if run['algorithm'] not in SUPPORTS_BOUNDS:
+        return True
+    for k, q in enumerate(q for q in run['params'] if not q['fixed']):
+        lb = h2f(q['lb'])
+        if lb is None or (lb <= 0 if q['name'] == 'lam' else lb < 0):
+            return True
+    return False
+
+
+def gen_bootstrap_runs(rng, problems, algorithms, n_problems):
+    """estimate(run_bootstrap=True) with 2-3 bootstrap samples, with and without an iteration limit too small for the
+    estimation on the full sample (the re-estimations start at its last iterate and may well converge)"""
+    runs = []
+    for pid in sorted(problems, key=lambda k: int(k[1:]))[:n_problems]:
+        p = problems[pid]
+        for bk in ('none', 'active'):
+            bounds = gen_bounds(rng, p, bk)
+            start = gen_start(rng, p, bounds, rng.choice(['zero', 'far', 'random']))
+            for settings in (None, {'max_iterations': rng.choice([1, 2, 3])}):
+                for a in algorithms:
+                    r = make_run(pid, p, bounds, start, a, rng.random() < 0.5, None, None if settings is None else dict(settings),
+                                 {'bounds_kind': bk, 'start_kind': 'bootstrap'})
+                    r['bootstrap'] = rng.choice([2, 3])
+                    r['np_seed'] = rng.randrange(1000)
+                    runs.append(r)
+    return runs
+
+
+def gen_history_runs(rng, problems, algorithms, n_problems):
+    """further calls on the SAME BIOGEME object before and after the estimation: the results object that was returned must
+    not change, and earlier calls must not influence the estimation"""
+    runs = []
+    for pid in sorted(problems, key=lambda k: int(k[1:]))[:n_problems]:
+        p = problems[pid]
+        for bk in ('none', 'active'):
+            if p.get('kind') == 'expo':
+                # stay in the region where the likelihood is defined: guarding lower bounds, positive points
+                mle = [h2f(v) for v in p['ref_mle']]
+                bounds = [(0.0625 if k == 0 else 0.0, None) for k in range(len(mle))]
+
+                def pick():
+                    return [max(0.125, q4(mle[0] * rng.choice([0.5, 1.0, 2.0, 3.0])))] + [rng.choice([0.0, 0.25, 0.5]) for _ in mle[1:]]
+            else:
+                bounds = gen_bounds(rng, p, bk)
+
+                def pick():
+                    return gen_start(rng, p, bounds, rng.choice(['zero', 'random', 'far', 'near']))
+            start = pick()
+
+            def other():
+                for _ in range(20):
+                    o = pick()
+                    if o != start:
+                        break
+                return {nm: f2h(v) for nm, v in zip(p['free'], o)}
+
+            def action(pool):
+                k = rng.choice(pool)
+                return [k, other(), rng.random() < 0.3] if k == 'eval' else [k, other()]
+
+            for a in algorithms:
+                pre = [action(['eval', 'like', 'check_derivatives', 'estimate_from', 'quick_from']) for _ in range(rng.choice([0, 1, 2]))]
+                post = [action(['eval', 'eval', 'like', 'check_derivatives', 'estimate_from', 'quick_from']) for _ in range(rng.choice([1, 2, 3]))]
+                r = make_run(pid, p, bounds, start, a, rng.random() < 0.5, None, None, {'bounds_kind': bk, 'start_kind': 'history'})
+                r['pre'], r['post'] = pre, post
+                runs.append(r)
+    return runs
 
 
 BOUND_KINDS = ['none', 'inactive', 'active', 'one-sided']
@@ -981,6 +1195,10 @@ def check_run(problem, run, r):
     if not r.get('ok'):
         if 'crash' in r:
             out.append(Finding('exception', 'the estimation process died', 'estimation results', r))
+        elif unguarded(problem, run) and str(r.get('error', '')).startswith('OptimizationError'):
+            # the likelihood is undefined on a region this algorithm is not kept out of: an explicit failure of the (external)
+            # line search / trust region is a refusal, not a wrong result
+            info['refused'] = True
         else:
             out.append(Finding('exception', f'estimate() raised {r.get("error")}', 'estimation results', {'error': r.get('error'), 'trace': r.get('trace')}))
         return out, info
@@ -1012,6 +1230,9 @@ def check_run(problem, run, r):
     start = {p['name']: h2f(p['init']) for p in run['params']}
     if run.get('iter_start'):
         start.update({k: h2f(v) for k, v in run['iter_start'].items()})
+    for a in run.get('pre') or []:
+        if a[0] in ('estimate_from', 'quick_from'):      # BIOGEME.change_init_values(point) before an earlier estimation
+            start.update({k: h2f(v) for k, v in a[1].items()})
     x0 = [start[n] for n in names]
     info['moved'] = any(a != b for a, b in zip(x, x0))
     if not all(math.isfinite(v) for v in x + [L, L0] + g):
@@ -1040,10 +1261,11 @@ def check_run(problem, run, r):
     if r.get('fresh_names') != names:
         out.append(Finding('names', 'a fresh object orders the free parameters differently', names, r.get('fresh_names')))
         return out, info
-    xmax = max([1.0] + [abs(h2f(v)) for vals in problem['cols'].values() for v in vals])
-    nrows = len(problem['choice'])
+    vals = {p['name']: h2f(p['init']) for p in run['params'] if p['fixed']}
+    vals.update(dict(zip(names, x)))
+    ref = ref_eval(problem, vals, names)
     sc_f = max(1.0, abs(L))
-    sc_d = nrows * (1.0 + xmax) ** 2
+    sc_d = ref['scale_d']
     T = 1e-12
 
     def cmp_vec(a, b, tol):
@@ -1073,9 +1295,6 @@ def check_run(problem, run, r):
         out.append(Finding('bhhh-recomputed', 'results.data.bhhh is not the BHHH matrix at the returned estimates',
                            [[h2f(v) for v in row] for row in r['re_bhhh']], B))
     # --- (3') the STATED likelihood: independent numpy evaluation of sum_n log P_n(choice_n) and its derivatives
-    vals = {p['name']: h2f(p['init']) for p in run['params'] if p['fixed']}
-    vals.update(dict(zip(names, x)))
-    ref = ref_eval(problem, vals, names)
     T2 = 1e-9
     if not close(L, ref['f'], T2 * ref['scale_f']):
         out.append(Finding('loglike-stated', 'results.data.logLike is not the log likelihood of the stated model at the estimates',
@@ -1135,6 +1354,51 @@ def check_run(problem, run, r):
                                'gradient ~ 0 in every direction not blocked by an active bound',
                                {'estimates': x, 'g': g, 'projected_gradient': pgs, 'bounds': list(zip(lbs, ubs)), 'cause': r.get('cause'),
                                 'logLike': L, 'initLogLike': L0, 'settings': run.get('settings')}))
+    # --- (4') the results object that was returned does not change when the same BIOGEME object is used again
+    if r.get('after') is not None:
+        first = {k: r.get(k) for k in r['after']}
+        if first != r['after']:
+            changed = sorted(k for k in first if first[k] != r['after'][k])
+            out.append(Finding('results-mutated', 'the results returned by estimate() changed after further calls on the same BIOGEME object '
+                               f'({[a[0] for a in run.get("post") or []]}): fields {changed}',
+                               {k: first[k] for k in changed}, {k: r['after'][k] for k in changed}))
+    # --- (4'') what the results report is what the optimisation routine of the MAIN estimation returned (recorded calls)
+    rcalls = [c for c in (r.get('calls') or []) if c.get('routine') != 'FunctionToMinimize.__init__' and 'ret_convergence' in c]
+    if rcalls:
+        c0 = rcalls[0]
+        if bool(r['convergence']) != c0['ret_convergence'] or bool(r.get('has_converged')) != c0['ret_convergence']:
+            out.append(Finding('convergence-reported', f'results report convergence={r["convergence"]} (algorithm_has_converged()='
+                               f'{r.get("has_converged")}) but the optimisation of the estimation itself returned convergence='
+                               f'{c0["ret_convergence"]} ({c0.get("ret_cause")})', c0['ret_convergence'],
+                               {'convergence': r['convergence'], 'cause': r.get('cause'),
+                                'all_calls': [[c['ret_convergence'], c.get('ret_cause')] for c in rcalls]}))
+        if r.get('cause') != c0.get('ret_cause'):
+            out.append(Finding('convergence-reported', 'the reported cause of termination is not the one of the estimation itself',
+                               c0.get('ret_cause'), r.get('cause')))
+        if r['betaValues'] != c0.get('ret_solution'):
+            out.append(Finding('estimates-returned', 'the reported estimates are not the point returned by the optimisation routine',
+                               c0.get('ret_solution'), r['betaValues']))
+        B_ = run.get('bootstrap')
+        if B_:
+            boot = r.get('bootstrap')
+            if len(rcalls) != B_ + 1 or boot is None or len(boot) != B_:
+                out.append(Finding('bootstrap-rows', f'{B_} bootstrap samples requested', f'{B_ + 1} optimisations, {B_} rows',
+                                   {'optimisations': len(rcalls), 'rows': None if boot is None else len(boot)}))
+            else:
+                for k in range(B_):
+                    ck = rcalls[k + 1]
+                    if ck.get('start') != r['betaValues']:
+                        out.append(Finding('bootstrap-start', f'bootstrap re-estimation {k} does not start at the estimates', r['betaValues'], ck.get('start')))
+                        break
+                    if boot[k] != ck.get('ret_solution'):
+                        out.append(Finding('bootstrap-rows', f'row {k} of results.data.bootstrap is not what re-estimation {k} returned',
+                                           ck.get('ret_solution'), boot[k]))
+                        break
+                    if alg in SUPPORTS_BOUNDS and any((lb is not None and Fraction(h2f(v)) < Fraction(lb)) or (ub is not None and Fraction(h2f(v)) > Fraction(ub))
+                                                      for v, lb, ub in zip(boot[k], lbs, ubs)):
+                        out.append(Finding('bootstrap-bounds', f'bootstrap estimate {k} lies outside the declared bounds', list(zip(lbs, ubs)),
+                                           [h2f(v) for v in boot[k]]))
+                        break
     # --- (5) write-back (estimate() only; quick_estimate() must leave every Beta alone or write the estimates)
     before, after = r['leaves_before'], r['leaves_after']
     if quick:
@@ -1180,8 +1444,13 @@ def witness(problem, runs, extra=None):
                          'bounds': {p['name']: [h2f(p['lb']), h2f(p['ub'])] for p in run['params'] if not p['fixed']},
                          'restart_file': None if not run.get('iter_start') else {k: h2f(v) for k, v in run['iter_start'].items()}}
         return d
-    w = {'problem': problem, 'runs': [rd(r) for r in runs],
-         'spec': {a: ' + '.join((p if c is None else f'{p}*{c}') for p, c in t) or '0' for a, t in problem['alts'].items()}}
+    def lin(t):
+        return ' + '.join((p if c is None else f'{p}*{c}') for p, c in t) or '0'
+    if problem.get('kind') == 'expo':
+        spec = {'loglike': ('y*' if 'y' in problem['cols'] else '') + f'log({lin(problem["lin"])}) - ({lin(problem["lin"])})*t'}
+    else:
+        spec = {a: lin(t) for a, t in problem['alts'].items()}
+    w = {'problem': problem, 'runs': [rd(r) for r in runs], 'spec': spec}
     if extra:
         w.update(extra)
     return w
@@ -1196,22 +1465,27 @@ def evaluate(ctx, st, problems, runs, results):
         fs, info = check_run(p, run, r)
         infos.append(info)
         nconv += bool(info.get('converged'))
-        a = per_alg.setdefault(run['algorithm'], {'runs': 0, 'converged': 0, 'max_relpg': 0.0, 'idm_stale': 0})
+        a = per_alg.setdefault(run['algorithm'], {'runs': 0, 'converged': 0, 'max_relpg': 0.0, 'idm_stale': 0, 'refused': 0})
         a['runs'] += 1
+        a['refused'] += bool(info.get('refused'))
         a['converged'] += bool(info.get('converged'))
         a['max_relpg'] = max(a['max_relpg'], info.get('relpg', 0.0))
         a['idm_stale'] += bool(info.get('idm_stale'))
         if st is not None:
-            st.record({'problem': {'kind': p['kind'], 'rows': len(p['choice']), 'free': p['free'], 'fixed': list(p['fixed']),
-                                   'alts': p['alts']},
+            st.record({'problem': {'kind': p['kind'], 'rows': len(next(iter(p['cols'].values()))), 'free': p['free'], 'fixed': list(p['fixed']),
+                                   'alts': p['alts'], 'lin': p.get('lin'), 'sha': p.get('sha')},
                        'params': run['params'], 'algorithm': run['algorithm'], 'share': run['share'],
-                       'iter_start': run['iter_start'], 'settings': run.get('settings'), 'tags': run['tags']},
+                       'iter_start': run['iter_start'], 'settings': run.get('settings'), 'tags': run['tags'],
+                       'bootstrap': run.get('bootstrap'), 'pre': run.get('pre'), 'post': run.get('post'), 'quick': run.get('quick')},
                       nontrivial=bool(info.get('converged')) and bool(info.get('moved')))
         # witness class: a run in which some free parameter is pinned by lb == ub is marked (degenerate box; see the open
         # finding C07/estimate/stationarity-pinned in KNOWN_FINDINGS.json)
         pinned = any(q['lb'] is not None and q['lb'] == q['ub'] for q in run['params'] if not q['fixed'])
+        # ... and a run on a likelihood with an undefined region that nothing keeps this algorithm out of
+        # (open finding C07/estimate/(finite|final-ge-init)-undefined-region for the trust-region routines)
+        suffix = ('-pinned' if pinned else '') + ('-undefined-region' if unguarded(p, run) else '')
         for f in fs[:2]:
-            ctx.violation(f'C07/estimate/{f.clause}{"-pinned" if pinned else ""}/{run["algorithm"]}', f.what, witness(p, [run]),
+            ctx.violation(f'C07/estimate/{f.clause}{suffix}/{run["algorithm"]}', f.what, witness(p, [run]),
                           f.expected, f.observed, HOW)
     # --- (6) agreement of the maxima: all converged runs that solve the same problem
     groups = {}
@@ -1274,7 +1548,13 @@ def stream_estimate(ctx, n_problems=None, only=None, name='estimate'):
                     '30-80 rows of dyadic data, finite maximum checked by a numpy Newton iteration) x bound configurations '
                     '(none / inactive / active at the optimum / one-sided; for some problems also one parameter pinned by lb == ub) x feasible '
                     'starting points (zero, random, near the optimum, far, on a bound; 12% through a restart file __<model>.iter) x shared or '
-                    'per-occurrence Beta objects x EVERY name of optimization.algorithms + automatic; a few combinations with non-default '
+                    'per-occurrence Beta objects x EVERY name of optimization.algorithms + automatic; + a second family: duration / count '
+                    'models sum y log(lam + b z) - (lam + b z) t, concave with a negative maximum and UNDEFINED (NaN) where lam + b z < 0, '
+                    'with no bound / only upper bounds / guarding lower bounds and starts from which a Newton step lands in the undefined '
+                    'region; + estimate(run_bootstrap=True) with 2-3 samples, with and without an iteration limit (1-3) too small for the '
+                    'main estimation; + histories: further calls (derivatives at another point, check_derivatives, a second estimate / '
+                    'quick_estimate from another start) on the same BIOGEME object before and after the estimation; all runs with '
+                    'recording spies on the external routines; a few combinations with non-default '
                     '[SimpleBounds] tolerance (1e-7, 1e-3) / steptol (1e-9; 0.1 for the algorithms without step test); 12% through '
                     'quick_estimate(); corpus/C07 first; non-trivial = convergence reported and the estimates differ from the start; '
                     'distinct by (model, parameters, start, bounds, algorithm)')
@@ -1311,7 +1591,17 @@ def stream_estimate(ctx, n_problems=None, only=None, name='estimate'):
         some = {k: v for k, v in gen.items() if len(v['free']) >= 2 and int(k[1:]) % ctx.n(3, 2) == 0}
         runs += gen_runs(rng, some, algorithms, n_starts=1, bound_kinds=EXTRA_BOUND_KINDS)
         runs += gen_tolerance_runs(rng, gen, algorithms, ctx.n(3, 40))
-    results = run_impl(ctx, problems, runs)
+        runs += gen_bootstrap_runs(rng, gen, algorithms, ctx.n(3, 30))
+        runs += gen_history_runs(rng, gen, algorithms, ctx.n(3, 40))
+        expo = {}
+        for k in range(ctx.n(4, 40) if n_problems is None else max(2, n_problems // 4)):
+            expo[f'e{k}'] = gen_expo_problem(rng)
+        problems.update(expo)
+        runs += gen_expo_runs(rng, expo, algorithms, light=ctx.quick)
+        runs += gen_history_runs(rng, expo, [a for a in algorithms if a in SUPPORTS_BOUNDS and a != 'scipy'], ctx.n(1, 10))
+    # every estimation runs with the recording spies on the external routines (they then run the real routine): what the
+    # results report is compared with what the routine of the MAIN estimation returned
+    results = run_impl(ctx, problems, runs, spy=True)
     summary = evaluate(ctx, st, problems, runs, results)
     st.extra.update(summary)
     st.extra['algorithms'] = algorithms
